@@ -61,4 +61,88 @@ vpv_cell!(#[kani::unwind(4)] c33_ll_two, "C33/LeastLoadedPlacement::place/2 cand
     std::mem::forget(r); std::mem::forget(w0); std::mem::forget(w1);
     ok });
 
-vpv_replay_table!(c33_is_available, c33_rr_empty, c33_rr_two, c33_rr_one, c33_ll_empty, c33_ll_two);
+
+// ---- Coordinator::{heartbeat, health_sweep, plan_deploy_group}: BOUNDED STAND-INS (native enumeration).  They iterate a HashMap<WorkerId, WorkerNode>,
+// read the wall clock and log through tracing — outside Kani's reach (DESIGN §4).
+#[cfg(vpv_replay)]
+pub fn c33_coord(statuses: &[u8], interval_s: u64, timeout_s: u64) -> crate::coordinator::Coordinator {
+    let mut c = crate::coordinator::Coordinator::new();
+    c.heartbeat_interval = std::time::Duration::from_secs(interval_s);
+    c.heartbeat_timeout = std::time::Duration::from_secs(timeout_s);
+    for (i, st) in statuses.iter().enumerate() {
+        let id = WorkerId(format!("w{}", i));
+        c.register_worker(WorkerNode::new(id.clone(), format!("http://127.0.0.1:1/w{}", i), String::from("key")));
+        c.workers.get_mut(&id).unwrap().status = status(*st);
+    }
+    c
+}
+#[cfg(vpv_replay)]
+pub fn c33_spec(affinity: Option<String>) -> crate::pipeline_group::PipelineGroupSpec {
+    crate::pipeline_group::PipelineGroupSpec { name: String::from("g"), routes: Vec::new(),
+        pipelines: vec![PipelinePlacement { name: String::from("p"), source: String::from("stream A = X"), worker_affinity: affinity, replicas: 1, partition_key: None }] }
+}
+vpv_native!(c33_plan_placement, "C33/Coordinator::plan_deploy_group/never places on a non-Ready worker; a pinned pipeline goes to its pinned worker iff that worker is available; fails iff no worker is available (native enumeration: 3 workers x 4 statuses each x 5 affinities)", {
+    let mut ok = true; let mut shown = 0;
+    for code in 0..64u32 {
+        let sts = [(code % 4) as u8, ((code / 4) % 4) as u8, ((code / 16) % 4) as u8];
+        for aff in 0..5usize {
+            let affinity = match aff { 0 => None, 4 => Some(String::from("missing")), k => Some(format!("w{}", k - 1)) };
+            let good = vpv_enum_try(|| format!("worker statuses={:?} affinity={:?}", [status(sts[0]), status(sts[1]), status(sts[2])], affinity), || {
+                let c = c33_coord(&sts, 5, 15);
+                let avail: Vec<bool> = (0..3).map(|i| status(sts[i]) == WorkerStatus::Ready).collect();
+                match c.plan_deploy_group(&c33_spec(affinity.clone())) {
+                    Ok(plan) => {
+                        if plan.tasks.len() != 1 { return false; }
+                        let chosen = plan.tasks[0].worker_id.0.clone();
+                        let idx = match chosen.strip_prefix("w").and_then(|x| x.parse::<usize>().ok()) { Some(i) if i < 3 => i, _ => return false };
+                        if !avail[idx] { return false; }
+                        if (1..=3).contains(&aff) && avail[aff - 1] && idx != aff - 1 { return false; }
+                        true
+                    }
+                    Err(_) => !avail.iter().any(|a| *a),
+                }
+            });
+            if !good { ok = false; shown += 1; if shown >= 3 { return false; } }
+        }
+    }
+    ok
+});
+vpv_native!(c33_heartbeat_and_sweep, "C33/Coordinator::heartbeat + health_sweep/a Ready worker is marked Unhealthy by a sweep iff its last heartbeat is older than the timeout; a heartbeat revives an Unhealthy worker and changes no other status (native enumeration: 4 statuses x 5 (interval, timeout) settings x heartbeat ages around the timeout)", {
+    let mut ok = true; let mut shown = 0;
+    let hb = crate::worker::HeartbeatRequest { events_processed: 1, pipelines_running: 0, pipeline_metrics: Vec::new() };
+    for (interval_s, timeout_s) in [(5u64, 15u64), (5, 6), (1, 2), (2, 2), (10, 12)] {
+        for st in 0..4u8 {
+            // ages: well inside, one second inside, one second past the timeout, just short of / past three intervals, far past
+            let mut ages: Vec<u64> = vec![0, timeout_s.saturating_sub(1), timeout_s + 1, (3 * interval_s).saturating_sub(1), 3 * interval_s + 1, 10 * timeout_s];
+            ages.sort(); ages.dedup();
+            for age in ages {
+                let good = vpv_enum_try(|| format!("status={:?} heartbeat_interval={}s heartbeat_timeout={}s last heartbeat {}s ago", status(st), interval_s, timeout_s, age), || {
+                    let id = WorkerId(String::from("w0"));
+                    // sweep
+                    let mut c = c33_coord(&[st, 1], interval_s, timeout_s);
+                    let t = match std::time::Instant::now().checked_sub(std::time::Duration::from_secs(age)) { Some(t) => t, None => return true };
+                    c.workers.get_mut(&id).unwrap().last_heartbeat = t;
+                    let r = c.health_sweep();
+                    let after = c.workers[&id].status.clone();
+                    let expect_unhealthy = status(st) == WorkerStatus::Ready && age > timeout_s;
+                    let want = if expect_unhealthy { WorkerStatus::Unhealthy } else { status(st) };
+                    if after != want || r.workers_marked_unhealthy.contains(&id) != expect_unhealthy { println!("  after sweep: status {:?}, expected {:?}", after, want); return false; }
+                    // a worker that is not Ready after the sweep must not receive a pinned placement
+                    if let Ok(plan) = c.plan_deploy_group(&c33_spec(Some(String::from("w0")))) {
+                        if plan.tasks[0].worker_id == id && after != WorkerStatus::Ready { println!("  pinned pipeline placed on a {:?} worker", after); return false; }
+                    }
+                    // heartbeat
+                    let mut c2 = c33_coord(&[st, 1], interval_s, timeout_s);
+                    if c2.heartbeat(&id, &hb).is_err() { return false; }
+                    let after_hb = c2.workers[&id].status.clone();
+                    let want_hb = if status(st) == WorkerStatus::Unhealthy { WorkerStatus::Ready } else { status(st) };
+                    if after_hb != want_hb { println!("  after heartbeat: status {:?}, expected {:?}", after_hb, want_hb); return false; }
+                    true
+                });
+                if !good { ok = false; shown += 1; if shown >= 3 { return false; } }
+            }
+        }
+    }
+    ok
+});
+vpv_replay_table!(c33_is_available, c33_rr_empty, c33_rr_two, c33_rr_one, c33_ll_empty, c33_ll_two, c33_plan_placement, c33_heartbeat_and_sweep);
